@@ -11,7 +11,7 @@ Open Scope Z_scope.
 Definition bok (bs : list Z) : Prop := Forall (fun b => 0 <= b < 256) bs.
 
 Definition raw_ok (f : rawfield) : Prop :=
-  match snd f with RBytes b | RFixed64 b | RFixed32 b => bok b | RVarint _ => True end.
+  match snd f with RBytes b | RFixed64 b | RFixed32 b => bok b | RVarint v => 0 <= v < 2 ^ 64 end.
 
 (* ---------- parsing hands out sub-strings of the input ---------- *)
 Lemma parse_varint_fuel_suffix n : forall bs s acc v r, parse_varint_fuel n bs s acc = Some (v, r) -> exists k, r = drop k bs.
@@ -27,6 +27,12 @@ Proof.
   intros H Hb. inversion H; subst. apply parse_varint_fuel_suffix in E. destruct E as (k & ->). apply Forall_drop. exact Hb.
 Qed.
 
+Lemma parse_varint_bound bs v r : parse_varint bs = Some (v, r) -> 0 <= v < 2 ^ 64.
+Proof.
+  unfold parse_varint. destruct (parse_varint_fuel 10 bs 0 0) as [[v' r']|]; [|discriminate].
+  intros H. inversion H; subst. apply Z.mod_pos_bound. lia.
+Qed.
+
 Lemma parse_fields_fuel_ok n : forall bs fs, parse_fields_fuel n bs = Some fs -> bok bs -> Forall raw_ok fs.
 Proof.
   induction n as [|n IH]; intros bs fs H Hb; [discriminate|]. cbn [parse_fields_fuel] in H.
@@ -37,7 +43,7 @@ Proof.
   destruct (t mod 8 =? 0).
   { destruct (parse_varint r) as [[v r']|] eqn:Ev; [|discriminate]. pose proof (parse_varint_ok _ _ _ Ev Hr) as Hr'.
     destruct (parse_fields_fuel n r') as [fs'|] eqn:Ef; [|discriminate]. inversion H; subst.
-    constructor; [exact I|]. eapply IH; eassumption. }
+    constructor; [exact (parse_varint_bound _ _ _ Ev)|]. eapply IH; eassumption. }
   destruct (t mod 8 =? 2).
   { destruct (parse_varint r) as [[len r']|] eqn:Ev; [|discriminate]. pose proof (parse_varint_ok _ _ _ Ev Hr) as Hr'.
     destruct (Z.of_nat (length r') <? len); [discriminate|].
